@@ -1,6 +1,48 @@
-//! C15 — stub (to be written; see /verif/harness/AUTHORING.md and DESIGN.md §3 C15)
-use vengine::Property;
+//! C15 — incremental fitting replays to the same model as batch fitting / its recurrence.
+//!
+//! * naive Bayes (Gaussian, multinomial): a dataset is cut into an ordered sequence of non-empty
+//!   batches and fed through `fit_with`; class counts, priors and per-class statistics (observed
+//!   through the models' public serde implementation) must equal the textbook estimates on the
+//!   concatenated data and those of one `fit`; predictions must maximise the posterior.
+//! * mini-batch k-means and FTRL: every update must apply the documented recurrence to the previous
+//!   public state; the model is a function of the history alone.
+
+pub mod ftrl;
+pub mod kmeans;
+pub mod nb;
+
+use vengine::{prop_sub, Property, Tier};
 
 pub fn property() -> Property {
-    Property { id: "C15", rule: "", assumptions: vec![], subs: vec![] }
+    Property {
+        id: "C15",
+        rule: "cases are histories. Naive Bayes: n 4..=60 rows, 1..=4 features, 2..=4 classes (usize or String labels; orderings random / sorted blocks / one singleton class / reverse blocks), \
+               a composition of n into 1..=n ordered non-empty batches (cut density 0, 1/32, 5/32, 1/2, 1), smoothing in {0, 1e-9, 1e-3, 0.1, 1}; \
+               non-trivial = at least 3 batches and at least one batch that lacks a class of the dataset. \
+               Mini-batch k-means: 1..=8 batches of 1..=30 rows, k 1..=4, precomputed or seeded (random, k-means++, k-means||) initialisation, tolerance in {1e-6, 1e-2, 10}; \
+               non-trivial = some cluster receives rows in at least 2 batches. \
+               FTRL: 1..=10 batches of 1..=20 rows, 1..=5 features, alpha in {0.005, 0.1, 1}, beta in {0, 1}, l1/l2 in {0, 0.1, 0.5, 1}, seeded initial z, batches applied through fit_with or predict+update; \
+               non-trivial = at least 2 updates. distinct = distinct canonical JSON of the case",
+        assumptions: vec![
+            "private naive-Bayes statistics are read through the public serde implementation (bincode round trip into a mirror struct {class_info: {label -> (class_count, prior, array, array)}}); no hook is used".into(),
+            format!("Gaussian NB: means within {:e}*max|x|, variances within {:e}*(max|x|*spread + spread^2) + 1e-12*|sigma| of the two-pass population estimates; smoothing term = var_smoothing * largest per-feature population variance of the whole dataset (linfa's documented definition); counts and priors exact", nb::TOL_THETA, nb::TOL_SIGMA),
+            format!("multinomial NB: feature counts exact, ln((c_j+alpha)/sum(c+alpha)) within {:e}*(1+|v|); with alpha = 0 a zero count must give exactly -inf; a class whose features are all zero with alpha = 0 has an undefined estimate (0/0) and is not judged", nb::TOL_LOGP),
+            format!("predictions: a predicted class must reach the maximal log-posterior recomputed from the model's own statistics within {:e}*(1 + magnitude of the terms); it must equal the textbook arg-max only where the textbook margin exceeds {:e}*(1 + magnitude); posterior ties may be broken either way", nb::TOL_MARGIN, nb::CROSS_MARGIN),
+            "Gaussian NB with var_smoothing = 0 and a class that has zero variance in a feature: the density is undefined, predictions are not judged (statistics still are)".into(),
+            "multinomial posterior uses the convention 0 * ln 0 = 0 (a feature that does not occur in the sample contributes nothing)".into(),
+            format!("k-means: counts exact, centroids within {:e}*scale of the row-by-row running mean replayed from the state linfa reported before the batch; inertia = mean squared distance to the nearest pre-batch centroid (relative {:e}); two centroids whose squared distances differ by <= {:e}*(1+scale^2) count as tied and linfa's own predict on the pre-batch model decides (it must name a tied centroid)", kmeans::TOL_CENTROID, kmeans::TOL_INERTIA, kmeans::TOL_TIE),
+            format!("k-means converged flag: Ok <=> Frobenius distance(old, new centroids) < tolerance, not judged when the two differ by <= {:e} relative", kmeans::TOL_FLAG),
+            format!("k-means seeded initialisation: the initial centroids are not observable; for the first batch all tuples of distinct batch rows are tried as initial centroids when there are <= {} of them (one must reproduce the model through the recurrence), otherwise only necessary conditions are checked (counts sum to the batch size, untouched centroids are batch rows, touched centroids lie in the bounding box); k-means|| is excluded from the same-history-same-model comparison (its candidate sampling is scheduled by rayon; C20 covers it)", kmeans::ENUM_CAP),
+            "k-means: Random initialisation needs at least k rows in the first batch (k is clamped)".into(),
+            format!("FTRL: every step is replayed from the (z, n) linfa reported before it; z, n and weights within {:e} of the sum of magnitudes entering the update (sigma's cancellation error eps*sqrt(n+g^2)/alpha included); probabilities are rounded to f32 as linfa's Pr type does; a case in which a probability sits within float error of an f32 rounding boundary is skipped; predict within {:e}", ftrl::TOL_STATE, ftrl::TOL_PROB),
+            "FTRL: beta = 0 together with l2 = 0 is outside the domain (the per-coordinate learning rate alpha/(beta+sqrt n) is infinite at n = 0); alpha > 0".into(),
+            "linfa's sigmoid clamps its argument to [-35, 35]; the reference does not, the difference (< 7e-16 per probability) is inside the tolerance".into(),
+        ],
+        subs: vec![
+            prop_sub("minibatch_kmeans", 800, 20000, |t: Tier| kmeans::strategy(t), kmeans::check),
+            prop_sub("gaussian_nb", 900, 24000, |t: Tier| nb::strategy(nb::Kind::Gaussian, t), nb::check),
+            prop_sub("multinomial_nb", 700, 18000, |t: Tier| nb::strategy(nb::Kind::Multinomial, t), nb::check),
+            prop_sub("ftrl", 600, 18000, |t: Tier| ftrl::strategy(t), ftrl::check),
+        ],
+    }
 }
